@@ -188,8 +188,11 @@ func c29RunRaw(in []string) []string {
 			res = "#" + vu.U64(uint64(c.Weight()))
 		case "Z":
 			sz, err := strconv.Atoi(o[2])
-			if err != nil || sz < 0 {
-				panic("negative resize is not run (the real call does not return)")
+			if err != nil {
+				panic("bad size")
+			}
+			if sz < 0 {
+				vu.Stat("resize_negative")
 			}
 			n := c.Resize(uint(c29u(o[1])), sz)
 			res = "n" + strconv.Itoa(n)
@@ -286,6 +289,8 @@ func c29GenOps(r *rand.Rand, impl string, nkeys int, maxw int, nops int, mw int,
 			sz := r.Intn(7)
 			if roomy {
 				mw, sz = 10+r.Intn(12), 3+r.Intn(4)
+			} else if r.Intn(25) == 0 {
+				sz = -1 - r.Intn(3) // below zero: read as 0 (the pinned tree's Resize never returned)
 			}
 			out = append(out, "Z", strconv.Itoa(mw), strconv.Itoa(sz))
 		case x < 89:
@@ -334,6 +339,8 @@ func init() {
 			emit("S", "3", "-1")
 			emit("W", "0", "-5")
 			emit("S", "0", "0", ";", "A", "1", "1", "0", ";", "A", "2", "2", "1", ";", "K")
+			emit("S", "3", "2", ";", "A", "1", "10", "1", ";", "A", "2", "20", "1", ";", "Z", "3", "-1", ";", "A", "3", "30", "0", ";", "L")
+			emit("W", "3", "2", ";", "Z", "5", "-2", ";", "A", "1", "10", "1", ";", "K")
 			depth := 2
 			if tier == "thorough" {
 				depth = 3
